@@ -128,6 +128,24 @@ def run(ctx):
         d = sw.discr()
         r1.check(set(d[2]) | set(d[4]) == {"Trust", "MD5"}, "authtype-variants", "AuthType has exactly {Trust, MD5}", "AuthType variants changed: %s" % (sorted(set(d[2]) | set(d[4]))))
 
+    # secrets fetched from the server with auth_query: only a stored md5 hash is a usable secret (an empty or otherwise shaped value would make
+    # the expected response computable from the public salt alone)
+    fh = ctx.body("pgcat::auth_passthrough::AuthPassthrough::fetch_hash::{closure#0}", r2)
+    if fh:
+        fsw = switches(fh)
+        sp = [c for c in fh.calls("re:^core::str::<impl str>::strip_prefix$") if "md5" in arg_strs(fh, c)]
+        oks = [blk for blk, i, st in fh.assigns() if st["lhs"]["l"] == 0 and not st["lhs"]["p"] and st["rv"]["k"] == "agg" and st["rv"].get("variant") == "Ok"]
+        someE = set()
+        for c in sp:
+            sE, nE, _ = discr_edges(fh, r"core::option::Option<&str>", "Some", origin_pred=lambda o, c=c: o.kind == "call" and o.call.block == c.block, switches_cache=fsw)
+            someE |= set(sE)
+        w = fh.uncrossed_path([0], oks, edges=someE) if someE else [0]
+        r2.check(bool(sp) and bool(oks) and w is None, "auth_query-secret-is-md5", "fetch_hash returns Ok only over the Some edge of strip_prefix(\"md5\") on the fetched value",
+                 "fetch_hash can return Ok for a value that is not an md5 hash (NULL/empty/unprefixed): the pool's auth_hash then lets anybody compute the expected response from the salt", "", w and fh.describe_path(w))
+        if sp and oks:
+            okv = all(any(o.kind == "call" and o.call.block in [c.block for c in sp] for o in origins(fh, st["rv"]["ops"][0], taint=True)) for blk, i, st in fh.assigns() if blk in oks and st["lhs"]["l"] == 0 and st["rv"]["k"] == "agg" and st["rv"].get("variant") == "Ok")
+            r2.check(okv, "auth_query-secret-value", "the returned secret is the stripped hash", "fetch_hash returns something else than the stripped hash")
+
     # ---------------- R3 pool must exist; R4 admin-only gate
     r3 = ctx.rule("C09-R3", "non-admin logins reach auth_ok only through the Some arm of get_pool(database, user)", floor=1)
     r4 = ctx.rule("C09-R4", "auth_ok is reached only if admin==true or admin_only==false; admin <=> database in {pgcat, pgbouncer}", floor=2)
